@@ -304,7 +304,12 @@ def make_sims(emg3d, rng):
                     solver_opts={'plain': True, 'tol': 1e-3, 'maxit': 5},
                     verb=0, tqdm_opts=False, name='sim', info='info')
         plain = emg3d.Simulation(**base)
-        comp = emg3d.Simulation(**{**base, 'survey': survey.copy()})
+        # forward and gradient tolerance differ; the last solver call before
+        # saving is a gradient
+        comp = emg3d.Simulation(**{
+            **base, 'survey': survey.copy(),
+            'solver_opts': {'plain': True, 'tol': 1e-3, 'maxit': 5,
+                            'tol_gradient': 1e-2}})
         comp.compute(observed=True)
         comp.survey.data['observed'] = comp.data.observed*1.1
         comp.compute()
@@ -648,6 +653,19 @@ def suite_files(ctx):
                                 f'save stores: {diff(gz, ez)}',
                                 {'class': cls, 'variant': i, 'what': what,
                                  'format': fmt})
+                        if cls == 'Simulation':
+                            # attributes, read from the instances themselves
+                            fa, fb = sim_attrs(x), sim_attrs(y)
+                            if fa != fb:
+                                bad.append(('attrs', cls, i, fmt, what))
+                                ctx.violation(
+                                    'to-file-roundtrip',
+                                    f'{cls}[{i}].to_file(.{fmt}, what={what})'
+                                    f' -> from_file: attributes '
+                                    f'{[(k, fa[k], fb[k]) for k in fa if fa[k] != fb[k]]}'
+                                    f' (name, saved, loaded) differ',
+                                    {'class': cls, 'variant': i,
+                                     'format': fmt, 'what': what})
                         got = cn.line(y)
                         if got != exp[what]:
                             bad.append(('to_file', cls, i, fmt, what))
@@ -669,6 +687,29 @@ def suite_files(ctx):
                                 not in common.known_findings(ctx.pid)],
                str(bad[:2])[:600])
     return bad
+
+
+def sim_attrs(sim):
+    """Settings of a simulation as its attributes report them."""
+    def nz(v):
+        # value and kind (bool/int/real/str), not the NumPy or Python flavour
+        if isinstance(v, np.ndarray) and v.ndim == 0:
+            v = v[()]
+        if isinstance(v, (bool, np.bool_)):
+            return ('B', bool(v))
+        if isinstance(v, (int, np.integer)):
+            return ('I', int(v))
+        if isinstance(v, (float, np.floating)):
+            return ('R', float(v))
+        if isinstance(v, (str, np.str_)):
+            return ('S', str(v))
+        return ('O', repr(v))
+    out = {k: nz(getattr(sim, k, None)) for k in [
+        'tol_forward', 'tol_gradient', 'max_workers', 'gridding', 'name',
+        'info', 'receiver_interpolation', 'layered', 'file_dir', 'verb']}
+    out['solver_opts'] = sorted(
+        (k, nz(v)) for k, v in sim.solver_opts.items() if k != 'tol')
+    return out
 
 
 def limitation(src, res):
